@@ -164,6 +164,11 @@ def check_invariant(mgr, w, g, strong_lock: bool, where: str):
         raise Violation("pageout-lock-free-with-jobs", where)
     if strong_lock and njobs == 0 and mgr.pageout_all.locked():
         raise Violation("pageout-lock-leaked", f"{where}: page-out lock held with no page-out outstanding; no eviction can start again")
+    tables = {}
+    for key, ds in mgr.datasets.items():
+        if id(ds.ongoing_reads) in tables:
+            raise Violation("datasets-share-one-reader-table", f"{where}: {tables[id(ds.ongoing_reads)]} and {key}: a reader of one makes the other look in use")
+        tables[id(ds.ongoing_reads)] = key
     owned = set()
     for key, ds in mgr.datasets.items():
         owned.add(ds.shmid)
